@@ -20,18 +20,23 @@ def main():
             continue
         seen.add(f['name'])
         props = set()
+        direct = set()
         for no in range(f['start'], f['end'] + 1):
             for t in tags.get(no, []):
-                props.add(t)
+                props.add(t.lstrip('~'))
+                if not t.startswith('~'):
+                    direct.add(t)
         hdr = ' '.join(lines[f['start'] - 1: f['start'] + 2])
         is_spec = bool(re.search(r'\b(spec|proof)\s+fn\b', ' '.join(lines[max(0, f['start'] - 2): f['start']])))
         ext = 'external_body' in ' '.join(lines[max(0, f['start'] - 4): f['start']])
         status = 'spec' if is_spec else ('external_body' if ext else 'verify')
         if status != 'spec':
             props.add('C03')
+            direct.add('C03')
         e = units.get(f['name'], {})
         e['status'] = status
         e['props'] = sorted(props | set(e.get('extra_props', [])))
+        e['direct'] = sorted(direct | set(e.get('extra_props', [])))
         units[f['name']] = e
     for k in list(units):
         if k not in seen:
